@@ -45,6 +45,11 @@ type c07Side struct {
 // runC07: application data interleaved with connectivity checks; writes before/after selection,
 // STUN-looking payloads, inbound non-STUN datagrams from selected/known/other-transport/unknown sources.
 func runC07(c *core.Ctx) {
+	if c.T.Bias(1, 6, "tcp-scenario") {
+		c.Knob("scenario", "tcp-selected")
+		runC07TCP(c)
+		return
+	}
 	k := drawC01Knobs(c)
 	k.liteB, k.restart = false, false
 	if k.blockPct > 40 {
